@@ -488,6 +488,55 @@ def part_corpus(ctx):
     return n
 
 
+def part_entry_points(ctx):
+    """Default-argument entry points x parameter head shapes (see vlib/c07_entry.py): the variant selected by the
+    selector of a prefix signature receives exactly the supplied values and the declared defaults for the rest."""
+    from vlib import c07_entry as E
+    rnd = ctx.rng("entry")
+    fns = E.family(rnd, ctx.tier)
+    C = configs.Config
+    cfgs = [C(False, "none", "cancun"), C(False, "gas", "prague"), C(False, "codesize", "london"),
+            C(True, "none", "shanghai"), C(True, "gas", "prague"), C(True, "codesize", "cancun")]
+    if ctx.tier == "thorough":
+        cfgs += [C(True, "O3", "prague"), C(True, "gas", "paris"), C(False, "gas", "paris", debug=True)]
+    n = 0
+    shapes = set()
+    for src, chunk, base in E.contracts(fns):
+        for cfg in cfgs:
+            try:
+                out = configs.compile_src(src, cfg, formats=("bytecode",))
+            except Exception as e:  # noqa
+                ctx.violation("correspondence-broken", f"entry-point family contract does not compile under {cfg.name}: "
+                              f"{type(e).__name__}: {e}", {"source": src, "config": cfg.name})
+                return n
+            ch = evm.Chain(cfg.evm)
+            addr = ch.deploy(bytes.fromhex(out["bytecode"][2:]))
+            if addr is None:
+                ctx.violation("correspondence-broken", "deployment failed", {"source": src, "config": cfg.name})
+                return n
+            for j, f in enumerate(chunk):
+                for sig, types, vals, exp in f.variants():
+                    data = E.calldata(sig, types, vals)
+                    r = ch.call(addr, data)
+                    n += 1
+                    shapes.add((tuple(f.params), f.nd, len(types)))
+                    want = b"".join(x.to_bytes(32, "big") for x in [base + j] + exp)
+                    if not r.ok or r.out != want:
+                        got = [int.from_bytes(r.out[i:i + 32], "big") for i in range(0, len(r.out), 32)] if r.ok else "revert"
+                        ctx.violation(
+                            "failing-input", "default-argument entry point does not receive the supplied arguments / declared defaults",
+                            {"source": src, "config": cfg.name, "function": f.source(base + j), "called_signature": sig,
+                             "calldata": data.hex(), "supplied_values": repr(vals),
+                             "expected_fingerprints[id, per parameter]": [base + j] + exp, "observed": got,
+                             "note": "fingerprint of a parameter = value (uint), a*3+b (static struct), x0*5+x1 (static array), len (String/Bytes), "
+                                     "len*1000+sum (DynArray), len(label)*1000+weight (dynamic struct), ...; supplied and default values differ"},
+                            key=f"entry-points:{'venom' if cfg.venom else 'legacy'}")
+                        return n
+    ctx.corr["entry_point_calls"] = n
+    ctx.corr["entry_point_shapes"] = len(shapes)
+    return n
+
+
 def replay(ctx):
     """Re-execute one recorded failing dispatch case on the current tree."""
     import json
@@ -541,6 +590,10 @@ def run(ctx):
     n2, found2 = part_dispatch(ctx, model_ok)
     ctx.log(f"dispatch: {n2} distinct calls in {time.time() - t:.1f}s (evm part {ctx.corr.get('evm_seconds')}s)")
     n3 = part_corpus(ctx)
+    t = time.time()
+    n3 += part_entry_points(ctx)
+    ctx.log(f"entry points: {ctx.corr.get('entry_point_calls')} calls, {ctx.corr.get('entry_point_shapes')} (params, defaults, arity) shapes in {time.time() - t:.1f}s")
+    found2 = found2 or any((v.get("key") or "").startswith("entry-points") for v in ctx.violations)
     found2 = found2 or any(v.get("key") == "venom-sparse-empty-bucket-fallback-stack" for v in ctx.violations)
     if rejected and not (found1 or found2):
         ctx.violation("translator-rejected", "c07_jt2coq cannot translate jumptable_utils.py: " + rejected, {"error": rejected})
